@@ -47,6 +47,7 @@ type c14Dst struct {
 }
 
 type c14Ev struct {
+	panics  bool // logged with Logger.Panic(): the done callback panics after the write
 	id      string
 	task    int
 	level   zerolog.Level
@@ -171,6 +172,10 @@ func (c14World) Run(prop string, ch *zsim.Choices, trace bool) *RunResult {
 				ev := &c14Ev{id: fmt.Sprintf("ev%d", n), task: t}
 				ev.level = []zerolog.Level{zerolog.InfoLevel, zerolog.DebugLevel, zerolog.WarnLevel, zerolog.ErrorLevel, zerolog.TraceLevel, zerolog.NoLevel}[ch.Intn(6)]
 				ev.ops = genOps(ch, ch.Intn(3), 1, "f")
+				if ch.Chance(1, 6) {
+					ev.level = zerolog.PanicLevel
+					ev.panics = true
+				}
 				for d := 0; d < nd; d++ {
 					oc := ocOK
 					if ch.Intn(6) < faultRate {
@@ -282,6 +287,18 @@ func (c14World) Run(prop string, ch *zsim.Choices, trace bool) *RunResult {
 
 func emit14(lg *zerolog.Logger, ev *c14Ev) {
 	var e *zerolog.Event
+	if ev.panics {
+		// Panic() events carry a done callback that panics after the event was written
+		// and after a write error was reported
+		defer func() {
+			if p := recover(); p == nil && !zsim.Dying() {
+				zsim.Fail("C14.returns", "Panic().Msg of %s did not panic", ev.id)
+			}
+		}()
+		zsim.Probe("panic_event")
+		applyEvent(lg.Panic().Str("id", ev.id), ev.ops).Msg("m")
+		return
+	}
 	if ev.level == zerolog.NoLevel {
 		e = lg.Log()
 	} else {
